@@ -371,6 +371,8 @@ fn format(
                             // it: report it and go on with the other inputs.
                             eprintln!("{e:#}");
                             session.add_operational_error();
+                            #[cfg(rustfmt_verif)]
+                            rustfmt::verif::ev_bad_path(&file);
                             continue;
                         }
                     };
